@@ -6,7 +6,9 @@ between tokens never changes the sequence of token types and literals."
 
 All statements are about the model `PoryModel/Lexer.lean`; `erase t = (t.type, t.lit)`.
 Vocabulary: `Skips inp rest` (`PoryProofs/LexTok.lean`) — `rest` is `inp` with leading whitespace
-and comments removed.  From `PoryProofs/LexLayout.lean`:
+and comments removed; a comment starts at `#` or `//` and runs up to and including the next
+newline (or to the end of the input) and may contain ANY character except newline.  From
+`PoryProofs/LexLayout.lean`:
 * `nextE`, `lexAllE` — the lexer without counters; `nextToken_erased`, `lexAll_erased` say the model
   computes exactly these, whatever the counters;
 * `LexemeAt ok lex toks` — the non-empty string `lex` is read by one `nextToken` call as the
@@ -30,6 +32,19 @@ all of which admit every continuation that starts with a separator (`ok_of_sepSt
 `okStr_of_sep`); also raw strings, negative numbers and the `name"…"` string-type pair.  Not
 covered by a `LexemeAt` lemma (they can still be used as `Lexeme`s by proving `LexemeAt` for
 them): `ILLEGAL` characters (incl. lone `&`, `|`) and the NUL character.
+
+NUL characters (finding F16 — FIXED in lexer.go and in the model).
+`skipToNextLine` used to stop at a NUL, so a NUL inside a comment ended the comment and the rest of
+the line was lexed as tokens; `Skips` / `Sep` / `SepLast` therefore had to exclude NUL from comment
+text.  After the fix they no longer do: the only constraint on the text of a comment is "no
+newline", so `lexAll_layout`, `lexAll_of_layout`, `leading_separators_ignored` and the new
+`comment_line_ignored` cover comments containing NUL (example `nul_in_comment`: the sources
+`lock # c <NUL> bar⏎foo` and `lock foo` have the same tokens).
+Still excluded, deliberately: a NUL OUTSIDE a comment is not a separator.  The lexer returns an
+`EOF` token for it (`tokenAt … NUL = nulTok`; the Go parser stops there), so inserting one between
+two tokens does change the token sequence — see the example `nul_outside_comment`.  `Sep`
+consequently admits only whitespace and comments, and a raw-string body (`rawL`) and a string part
+(`Part`) still exclude NUL because the lexer ends those literals at a NUL.
 -/
 namespace Pory.C19b
 open Pory Pory.Lexer Pory.LexPos Pory.LexLayout Pory.LexString
@@ -54,10 +69,26 @@ theorem leading_separators_ignored (inp rest : List Char) (p p' : Pos) (h : Skip
 
 /-- Non-vacuity of (a): a comment, blank lines and indentation in front of `<=`. -/
 example : Skips "# c\n\n  // d\n\t<= 1".toList "<= 1".toList := by
-  refine .comment "# c".toList '\n' _ _ (by decide) (by decide) (Or.inl rfl) ?_
+  refine .comment "# c".toList _ _ (by decide) (by decide) ?_
   refine .ws _ _ _ (by decide) (.ws _ _ _ (by decide) (.ws _ _ _ (by decide) ?_))
-  refine .comment "// d".toList '\n' _ _ (by decide) (by decide) (Or.inl rfl) ?_
+  refine .comment "// d".toList _ _ (by decide) (by decide) ?_
   exact .ws _ _ _ (by decide) (.done _)
+
+/-- (a') A whole comment line in front of a token is ignored **whatever it contains** — NUL
+characters included (F16 fixed): `body` starts with `#` or `//` and is only required to contain no
+newline. -/
+theorem comment_line_ignored (body rest : List Char) (p p' : Pos)
+    (hs : isCommentStart body = true) (hb : ∀ c ∈ body, c ≠ '\n') :
+    (nextToken ⟨body ++ '\n' :: rest, p⟩).1.map erase = (nextToken ⟨rest, p'⟩).1.map erase ∧
+    (nextToken ⟨body ++ '\n' :: rest, p⟩).2.2 = (nextToken ⟨rest, p'⟩).2.2 ∧
+    (nextToken ⟨body ++ '\n' :: rest, p⟩).2.1.inp = (nextToken ⟨rest, p'⟩).2.1.inp :=
+  leading_separators_ignored _ _ p p'
+    (.comment body rest rest (isCommentStart_append hs _) hb (.done _))
+
+/-- Non-vacuity of (a'): a `//` comment containing two NUL characters. -/
+example (p p' : Pos) :
+    (nextToken ⟨"// a\x00b\x00\nfoo".toList, p⟩).1.map erase = (nextToken ⟨"foo".toList, p'⟩).1.map erase :=
+  (comment_line_ignored "// a\x00b\x00".toList "foo".toList p p' (by decide) (by decide)).1
 
 /-! ### (b) Layouts -/
 
@@ -240,13 +271,13 @@ theorem airy_ok : LayoutOK airy := by
   refine layoutOK_cons kwIf _ _ (sep_ws _ (by decide)) (ok_cons ' ' _ (by decide)).2.2.1 ?_
   refine layoutOK_cons lpar _ _ (sep_ws _ (by decide)) trivial ?_
   refine layoutOK_cons n12 _ _ ?_ ?_ ?_
-  · exact .ws ' ' _ (by decide) (.comment "# twelve".toList '\n' [] (by decide) (by decide) (Or.inl rfl) .nil)
+  · exact .ws ' ' _ (by decide) (.comment "# twelve".toList [] (by decide) (by decide) .nil)
   · exact (ok_cons ' ' _ (by decide)).2.2.2.1
   refine layoutOK_cons le2 _ _ (sep_ws _ (by decide)) trivial ?_
   refine layoutOK_cons hx _ _ (sep_ws _ (by decide)) ?_ ?_
   · exact (ok_cons '\n' _ (by decide)).2.2.2.2
   refine layoutOK_cons eq1 _ _ ?_ ?_ ?_
-  · exact .ws ' ' _ (by decide) (.comment "// x".toList '\n' _ (by decide) (by decide) (Or.inl rfl)
+  · exact .ws ' ' _ (by decide) (.comment "// x".toList _ (by decide) (by decide)
       (.ws ' ' _ (by decide) .nil))
   · exact (ok_cons ' ' _ (by decide)).2.1
   refine layoutOK_cons eq1 _ _ (sep_ws _ (by decide)) ?_ ?_
@@ -265,12 +296,74 @@ theorem compact_airy :
         (.RPAREN, ")"), (.STRING, "a\nb"), (.EOF, "")] := by
   have hc : Skips ([] ++ body compact) (body compact) := .done _
   have ha : Skips ("// head\n".toList ++ body airy) (body airy) :=
-    leading_sep _ _ (.comment "// head".toList '\n' [] (by decide) (by decide) (Or.inl rfl) .nil)
+    leading_sep _ _ (.comment "// head".toList [] (by decide) (by decide) .nil)
   constructor
   · rw [← compact_src, ← airy_src]
     exact lexAll_layout _ _ compact airy rfl hc compact_ok ha airy_ok
   · rw [← compact_src, lexAll_of_layout [] compact hc compact_ok]
     decide
+
+/-! ### F16 (fixed): a NUL inside a comment is part of the comment -/
+
+theorem lock_foo_letters : ∀ x ∈ ['l', 'o', 'c', 'k', 'f'], isLetter x = true := by
+  simp only [isLetter, inRanges_list]
+  decide +kernel
+
+theorem lock_foo_identP (cs : List Char) (h : ∀ x ∈ cs, x ∈ ['l', 'o', 'c', 'k', 'f']) :
+    ∀ x ∈ cs, identP x = true := by
+  intro x hx
+  simp only [identP, lock_foo_letters x (h x hx), Bool.true_or]
+
+def lockL : Lexeme := identL 'l' ['o', 'c', 'k'] (lock_foo_letters _ (by decide))
+  (lock_foo_identP _ (by decide))
+def fooL : Lexeme := identL 'f' ['o', 'o'] (lock_foo_letters _ (by decide))
+  (lock_foo_identP _ (by decide))
+
+/-- `lock # c <NUL> bar⏎foo`: the comment after `lock` contains a NUL character -/
+def nulLayout : List (Lexeme × List Char) := [(lockL, " # c \x00 bar\n".toList), (fooL, [])]
+/-- `lock foo` -/
+def plainLayout : List (Lexeme × List Char) := [(lockL, " ".toList), (fooL, [])]
+
+theorem nulLayout_src : render [] nulLayout = "lock # c \x00 bar\nfoo".toList := by decide
+theorem plainLayout_src : render [] plainLayout = "lock foo".toList := by decide
+theorem nulLayout_has_nul : NUL ∈ render [] nulLayout := by decide
+
+theorem nulLayout_ok : LayoutOK nulLayout := by
+  refine layoutOK_cons lockL _ _ ?_ (ok_cons ' ' _ (by decide)).2.2.1 ?_
+  · exact .ws ' ' _ (by decide) (.comment "# c \x00 bar".toList [] (by decide) (by decide) .nil)
+  · exact layoutOK_last fooL [] (.sep _ .nil) (by intro d hd; simp at hd)
+
+theorem plainLayout_ok : LayoutOK plainLayout := by
+  refine layoutOK_cons lockL _ _ (sep_ws _ (by decide)) (ok_cons ' ' _ (by decide)).2.2.1 ?_
+  exact layoutOK_last fooL [] (.sep _ .nil) (by intro d hd; simp at hd)
+
+/-- **F16 fixed**: the two layouts `lock # c <NUL> bar⏎foo` and `lock foo` have the same token
+types and literals — by `lexAll_layout`, the NUL (and the `bar` after it) being part of the
+comment — namely `lock`, `foo`, `EOF`. -/
+theorem nul_in_comment :
+    (lexAll "lock # c \x00 bar\nfoo".toList).map erase = (lexAll "lock foo".toList).map erase ∧
+    (lexAll "lock # c \x00 bar\nfoo".toList).map erase =
+      [(.IDENT, "lock"), (.IDENT, "foo"), (.EOF, "")] := by
+  constructor
+  · rw [← nulLayout_src, ← plainLayout_src]
+    exact lexAll_layout [] [] nulLayout plainLayout rfl (.done _) nulLayout_ok (.done _) plainLayout_ok
+  · rw [← nulLayout_src, lexAll_of_layout [] nulLayout (.done _) nulLayout_ok]
+    decide
+
+/-- A NUL **outside** a comment is still not a separator: the lexer returns an `EOF` token for it
+(and goes on), so `lock <NUL> foo` and `lock foo` do not have the same tokens.  This is why `Sep`
+admits whitespace and comments only. -/
+theorem nul_outside_comment :
+    (lexAll "lock \x00 foo".toList).map erase =
+      [(.IDENT, "lock"), (.EOF, ""), (.IDENT, "foo"), (.EOF, "")] ∧
+    (lexAll "lock \x00 foo".toList).map erase ≠ (lexAll "lock foo".toList).map erase := by
+  have h1 : (lexAll "lock \x00 foo".toList).map erase =
+      [(.IDENT, "lock"), (.EOF, ""), (.IDENT, "foo"), (.EOF, "")] := by decide +kernel
+  have h2 : (lexAll "lock foo".toList).map erase = [(.IDENT, "lock"), (.IDENT, "foo"), (.EOF, "")] :=
+    nul_in_comment.1.symm.trans nul_in_comment.2
+  refine ⟨h1, ?_⟩
+  rw [h1, h2]
+  decide
 
 end Example
 
